@@ -463,6 +463,11 @@ func (v *Validators) PayRewardsV5Fix(height uint64, period int64) (moreRewards *
 
 	for _, validator := range vals {
 		candidate := v.bus.Candidates().GetCandidate(validator.PubKey)
+		if candidate == nil {
+			// the candidate changed its public key in this block: the validator entry is replaced by the
+			// validator-set update of the same EndBlock, which keeps its accumulated reward in the ledger
+			continue
+		}
 
 		totalReward := big.NewInt(0).Set(validator.GetAccumReward())
 		remainder := big.NewInt(0).Set(validator.GetAccumReward())
